@@ -368,6 +368,7 @@ func (cl *Cluster) Snapshot() *Snapshot {
 type Checkpoint struct {
 	kvs        map[string]string
 	containers map[string]Container
+	wal        map[int]bool // WAL events pending at checkpoint time (kept on restore)
 }
 
 func (cl *Cluster) dumpKVs(ctx context.Context) map[string]string {
@@ -388,11 +389,11 @@ func (cl *Cluster) dumpKVs(ctx context.Context) map[string]string {
 func (cl *Cluster) Checkpoint() *Checkpoint {
 	ctx, cancel := context.WithTimeout(context.Background(), 20*time.Second)
 	defer cancel()
-	return &Checkpoint{kvs: cl.dumpKVs(ctx), containers: cl.Hub.dump()}
+	return &Checkpoint{kvs: cl.dumpKVs(ctx), containers: cl.Hub.dump(), wal: cl.WAL.pendingKeys()}
 }
 
-// Restore puts the persistent state back to cp: lease-less etcd keys, containers; pending WAL
-// events are purged. The Calcium instance itself is stateless between operations.
+// Restore puts the persistent state back to cp: lease-less etcd keys, containers; WAL events
+// logged since the checkpoint and still pending are purged. The Calcium instance itself is stateless between operations.
 func (cl *Cluster) Restore(cp *Checkpoint) {
 	ctx, cancel := context.WithTimeout(context.Background(), 20*time.Second)
 	defer cancel()
@@ -413,7 +414,7 @@ func (cl *Cluster) Restore(cp *Checkpoint) {
 		}
 	}
 	cl.Hub.load(cp.containers)
-	cl.WAL.Purge()
+	cl.WAL.Purge(cp.wal)
 }
 
 // Wipe empties the key space, the fake engines and the WAL (start of a new history on a shared etcd).
